@@ -291,6 +291,7 @@ where
         for mgr_task in task_map.values() {
             match &mgr_task.task {
                 Either::Left(migrating_task) if migrating_task.contains_slot(slot) => {
+                    crate::verif_point!("migration-map:command-for-a-migrating-slot");
                     return migrating_task.send(cmd_task)
                 }
                 Either::Right(importing_task) if importing_task.contains_slot(slot) => {
